@@ -137,6 +137,25 @@ pub fn scenario(t: &mut Tape, strict_only: bool, dup: u32) -> (GProg, std::colle
             }
         }
     }
+    // a definer that puts one name on two captured nodes of a match
+    if t.chance(1, 4) {
+        let name = names[t.choose(names.len())].clone();
+        features.insert("definition-on-two-nodes-of-one-match");
+        let mut body = vec![];
+        for cap in ["o", "a"] {
+            body.push(Stmt::Let { id: ids.next(), var: VarRef::Scoped { id: ids.next(), scope: Expr::Capture { id: ids.next(), name: cap.into() }, name: name.clone() }, value: Expr::Str(format!("{}@pair-{}", name, cap)) });
+        }
+        definer_stanzas.push(Item::Stanza(Stanza { id: ids.next(), query: "(attribute object: (identifier) @o attribute: (identifier) @a)".into(), captures: vec![Cap { name: "o".into(), quant: Quant::One }, Cap { name: "a".into(), quant: Quant::One }], body, pool: usize::MAX }));
+        definer_is_outer.push(false);
+        // and a second stanza with the same pattern that defines it on the first node again: an
+        // error whichever of the two stanzas comes first
+        if t.chance(1, dup.min(3)) {
+            features.insert("duplicate-definition-from-a-stanza-with-the-same-pattern");
+            let again = Stmt::Let { id: ids.next(), var: VarRef::Scoped { id: ids.next(), scope: Expr::Capture { id: ids.next(), name: "o".into() }, name: name.clone() }, value: Expr::Str(format!("{}@pair-again", name)) };
+            definer_stanzas.push(Item::Stanza(Stanza { id: ids.next(), query: "(attribute object: (identifier) @o attribute: (identifier) @_a)".into(), captures: vec![Cap { name: "o".into(), quant: Quant::One }, Cap { name: "_a".into(), quant: Quant::One }], body: vec![again], pool: usize::MAX }));
+            definer_is_outer.push(false);
+        }
+    }
     // every identifier gets a graph node to hang the probes on
     let base = Item::Stanza(Stanza {
         id: ids.next(),
@@ -196,6 +215,8 @@ pub fn scenario(t: &mut Tape, strict_only: bool, dup: u32) -> (GProg, std::colle
         if via_link {
             features.insert("read-through-stored-link");
         }
+        // sometimes the value goes through a local that is also printed
+        let through_local = t.chance(1, 4);
         let body = if is_list {
             features.insert("read-through-list-element");
             let var = format!("e{}", ri);
@@ -203,6 +224,16 @@ pub fn scenario(t: &mut Tape, strict_only: bool, dup: u32) -> (GProg, std::colle
         } else if cq.captures.iter().any(|c| c.name == cap && c.quant == Quant::Opt) {
             features.insert("read-through-optional-capture");
             vec![Stmt::If { id: ids.next(), arms: vec![IfArm { id: ids.next(), conds: vec![Cond::Some(ids.next(), Expr::Capture { id: ids.next(), name: cap.to_string() })], body: { let target = Expr::Capture { id: ids.next(), name: cap.to_string() }; vec![probe(&mut ids, target, false)] } }] }]
+        } else if through_local && !via_link {
+            features.insert("read-held-in-a-printed-local");
+            let read = Expr::Scoped { id: ids.next(), scope: Box::new(Expr::Capture { id: ids.next(), name: cap.to_string() }), name: name.clone() };
+            let held = format!("held{}", ri);
+            let node = Expr::Scoped { id: ids.next(), scope: Box::new(Expr::Capture { id: ids.next(), name: cap.to_string() }), name: "n".into() };
+            vec![
+                Stmt::Let { id: ids.next(), var: VarRef::Plain { id: ids.next(), name: held.clone() }, value: read },
+                Stmt::Print { id: ids.next(), values: vec![Expr::Var { id: ids.next(), name: held.clone() }] },
+                Stmt::AttrNode { id: ids.next(), node, attrs: vec![Attr { name: format!("r{}_{}", ri, name.replace('-', "_")), value: Some(Expr::Var { id: ids.next(), name: held }) }] },
+            ]
         } else {
             let target = Expr::Capture { id: ids.next(), name: cap.to_string() };
             vec![probe(&mut ids, target, via_link)]
